@@ -35,6 +35,7 @@ pub fn run_case(c: &Sx) -> Sx {
         "whnf" => whnf_op(v),
         "tcctx" => tcctx(v),
         "pair" => pair(v),
+        "peel" => peel(v),
         "roundtrip" => roundtrip(v),
         "asciiclasses" => ascii_classes(),
         h => panic!("harness: unknown op {h}"),
@@ -662,8 +663,8 @@ fn unify_op(v: &[Sx]) -> Sx {
     let r = unify(&p, &q, &mut dc);
     let hk = hooks_take();
     let mut exp = Exporter::from_importer(&imp);
-    let pz = exp.term(&p, true);
-    let qz = exp.term(&q, true);
+    let pz = exp.term(&p, false);
+    let qz = exp.term(&q, false);
     let st = exp.store();
     l(vec![a("unify"), b(r), pz, qz, st, b(dc.len() == before), hk])
 }
@@ -745,4 +746,75 @@ fn pair(v: &[Sx]) -> Sx {
         }
     };
     l(vec![a("pair"), one(&v[1]), one(&v[2])])
+}
+
+// (peel x:<src> k): parse the closed program, peel up to k outer binder layers (annotated lambdas and
+// definition groups) into a typing / definitions context exactly as the checker would push them, and
+// type_check the remaining open term under that context; also type_check the closed program.
+fn peel(v: &[Sx]) -> Sx {
+    use crate::term::Variant;
+    let src = match String::from_utf8(hex_decode(v[1].atom())) {
+        Ok(s) => s,
+        Err(_) => return l(vec![a("notutf8")]),
+    };
+    let k = v[2].usize();
+    let toks = match tokenize(None, &src) {
+        Ok(t) => t,
+        Err(_) => return l(vec![a("rejected")]),
+    };
+    let term = match parse(None, &src, &toks[..], &[]) {
+        Ok(t) => t,
+        Err(_) => return l(vec![a("rejected")]),
+    };
+    let mut exp = Exporter::default();
+    // closed
+    let mut tc0 = vec![];
+    let mut dc0 = vec![];
+    let closed = type_check(None, &src, &term, &mut tc0, &mut dc0);
+    let closed_ctx_ok = tc0.is_empty() && dc0.is_empty();
+    // peel
+    let mut tc = vec![];
+    let mut dc = vec![];
+    let mut layers = vec![a("layers")];
+    let mut cur = term.clone();
+    for _ in 0..k {
+        let next = match &cur.variant {
+            Variant::Lambda(_, false, domain, body) => {
+                if let Variant::Unifier(_, _) = domain.variant {
+                    break;
+                }
+                tc.push((domain.clone(), 0));
+                dc.push(None);
+                layers.push(l(vec![a("lam"), exp.term(domain, true)]));
+                (**body).clone()
+            }
+            Variant::Let(defs, body) => {
+                let nn = defs.len();
+                let mut ds = vec![a("let")];
+                for (i, (_, ann, def)) in defs.iter().enumerate() {
+                    tc.push((ann.clone(), nn - i));
+                    dc.push(Some((def.clone(), nn - i)));
+                    ds.push(l(vec![exp.term(ann, true), exp.term(def, true)]));
+                }
+                layers.push(l(ds));
+                (**body).clone()
+            }
+            _ => break,
+        };
+        cur = next;
+    }
+    let depth_before = (tc.len(), dc.len());
+    let snapshot: Vec<String> = tc.iter().map(|(t, o)| format!("{}@{}", t, o)).collect();
+    let open_res = type_check(None, &src, &cur, &mut tc, &mut dc);
+    let snapshot2: Vec<String> = tc.iter().map(|(t, o)| format!("{}@{}", t, o)).collect();
+    let restored = depth_before == (tc.len(), dc.len()) && snapshot == snapshot2;
+    let c = match &closed {
+        Ok((e, t)) => l(vec![a("ok"), exp.term(e, true), exp.term(t, true)]),
+        Err(es) => l(vec![a("err"), n(es.len())]),
+    };
+    let o2 = match &open_res {
+        Ok((e, t)) => l(vec![a("ok"), exp.term(e, true), exp.term(t, true)]),
+        Err(es) => l(vec![a("err"), n(es.len())]),
+    };
+    l(vec![a("peeled"), l(layers), c, o2, b(closed_ctx_ok), b(restored)])
 }
